@@ -952,9 +952,15 @@ class TypeBlocks(ContainerOperand):
         Return a TypeBlocks rounded to the given decimals. Negative decimals round to the left of the decimal point.
         '''
         func = partial(np.round, decimals=decimals)
+
+        def blocks() -> tp.Iterator[np.ndarray]:
+            for b in self._ufunc_blocks(column_key=NULL_SLICE, func=func):
+                b.flags.writeable = False # the initializer is used directly: blocks must be frozen here
+                yield b
+
         # for now, we do not expose application of rounding on a subset of blocks, but is doable by setting the column_key
         return self.__class__(
-                blocks=list(self._ufunc_blocks(column_key=NULL_SLICE, func=func)),
+                blocks=list(blocks()),
                 dtypes=self._dtypes.copy(), # list
                 index=self._index.copy(),
                 shape=self._shape
